@@ -65,7 +65,7 @@ CHECKS.update({
    note=SYSNOTE,
    tech="TLA+ implementation-shaped model (Dispatch.tla) checked by TLC, its behaviours replayed on the real code; TLA+ contract monitor + TLC trace validation of real executions under a deterministic scheduler"),
  "C17": dict(engine="tlc+h_sys", cat=MC, ref="4 C17",
-   text="RemoveRA.tla (removal flags under release/acquire, orders extracted, replayed on the real LoggerManager), SpinlockRA.tla (registry lock under release/acquire with the memory orders extracted from the code, every transition replayed on the real Spinlock through a shim atomic), Quill.tla (pipeline with logger removal) and Registry.tla (logger/sink registries, object lifetimes, async and blocking removal, create/get by name, failing flush) checked exhaustively for small configurations (I=>A on every exported behaviour, every transition replayed on the real code with per-step comparison); plus executions with create/get/remove/remove_blocking/re-create cycles and shared sinks validated by TLC against QuillContract: nothing logged before removal is lost, sinks destroyed only when unreferenced, blocking removal returns after completion, idempotent create/get",
+   text="RemoveRA.tla (removal flags under release/acquire, orders extracted, replayed on the real LoggerManager), SpinlockRA.tla (registry lock under release/acquire with the memory orders extracted from the code, every transition replayed on the real Spinlock through a shim atomic), Quill.tla (pipeline with logger removal) and Registry.tla (logger/sink registries, object lifetimes, async and blocking removal, create/get by name, failing flush) checked exhaustively for small configurations (I=>A on every exported behaviour, every transition replayed on the real code with per-step comparison); plus executions with create/get/remove/remove_blocking/re-create cycles and shared sinks validated by TLC against QuillContract: nothing logged before removal is lost, sinks destroyed only when unreferenced, blocking removal returns after completion, idempotent create/get; the remove_logger_blocking() handshake (request through the queue, remove_logger, the idle-branch clean-up with its acquire on _has_invalidated_loggers and emptiness re-check, destruction of the sink, the caller's flag) is part of StopRA.tla with extracted memory orders, every transition replayed on the REAL backend thread (h_stop)",
    note=SYSNOTE,
    tech="TLA+ contract monitor + TLC trace validation of real executions under a deterministic scheduler"),
  "C20": dict(engine="tlc+h_sys", cat=MC, ref="4 C20",
@@ -165,7 +165,7 @@ man = {"version": 1, "setup_cmd": "cd /verif && ./setup.sh",
            {"name": "h_time", "path": "/verif/harness/h_time.cpp", "serves_properties": ["C13"], "kind_free_text": "real TimestampFormatter under TZ=<zone> with interposed strftime"},
            {"name": "h_named", "path": "/verif/harness/h_named.cpp", "serves_properties": ["C19"], "kind_free_text": "real named-args scanner and end-to-end JSON sink runs"},
            {"name": "h_life", "path": "/verif/harness/h_life.cpp", "serves_properties": ["C07"], "kind_free_text": "forked children running the real backend thread, FileSink and signals"},
-           {"name": "h_stop", "path": "/verif/harness/h_stop.cpp", "serves_properties": ["C03", "C06", "C07", "C08", "C16"], "kind_free_text": "the real backend thread (run loop, _poll, _exit), Backend::stop() and log calls of two real threads on the shim std::atomic (release/acquire model): the backend is parked at every load of its running flag, the script chooses what that load and the writer-position loads of the iteration read"},
+           {"name": "h_stop", "path": "/verif/harness/h_stop.cpp", "serves_properties": ["C03", "C06", "C07", "C08", "C16", "C17"], "kind_free_text": "the real backend thread (run loop, _poll, _exit), Backend::stop() and log calls of two real threads on the shim std::atomic (release/acquire model): the backend is parked at every load of its running flag, the script chooses what that load and the writer-position loads of the iteration read"},
            {"name": "h_lock", "path": "/verif/harness/h_lock.cpp", "serves_properties": ["C17"], "kind_free_text": "real detail::Spinlock on a shim std::atomic implementing the release/acquire model (coroutine threads, one step per atomic access, happens-before race detector)"},
            {"name": "h_remove", "path": "/verif/harness/h_remove.cpp", "serves_properties": ["C17"], "kind_free_text": "real LoggerManager / LoggerBase flags and bounded queue on the shim std::atomic (release/acquire model, script-chosen load values)"},
            {"name": "h_exit", "path": "/verif/harness/h_exit.cpp", "serves_properties": ["C20"], "kind_free_text": "real ThreadContext (_valid flag) and bounded queue on a shim std::atomic implementing the release/acquire model with script-chosen load values"},
